@@ -55,6 +55,7 @@ namespace vw
         uint64_t mesh_seed = 0;
         int mesh_holes = 0;
         int share_grid = 0;  // reference worlds (twin / prefix / fresh) are built on the main world's grid object
+        int reuse_input = 0; // the caller keeps ONE elevation array object and overwrites it before each update
         std::size_t size() const
         {
             if (kind == G_TRIMESH)
@@ -142,7 +143,7 @@ namespace vw
         const GridSpec& g = w.grid;
         o << "x grid " << grid_kind_name(g.kind) << " " << g.rows << " " << g.cols << " " << hexd(g.dy) << " " << hexd(g.dx) << " "
           << g.bs[0] << " " << g.bs[1] << " " << g.bs[2] << " " << g.bs[3] << " " << g.mesh_nx << " " << g.mesh_ny << " " << g.mesh_seed
-          << " " << g.mesh_holes << " " << g.share_grid << "\n";
+          << " " << g.mesh_holes << " " << g.share_grid << " " << g.reuse_input << "\n";
         for (const auto& ov : g.overrides)
             o << "x status " << ov.first << " " << ov.second << "\n";
         for (const OperatorSpec& s : w.ops)
@@ -194,6 +195,7 @@ namespace vw
                 g.mesh_seed = strtoull(t[12].c_str(), nullptr, 10);
                 g.mesh_holes = atoi(t[13].c_str());
                 g.share_grid = t.size() > 14 ? atoi(t[14].c_str()) : 0;
+                g.reuse_input = t.size() > 15 ? atoi(t[15].c_str()) : 0;
                 have_grid = true;
             }
             else if (t[0] == "status" && t.size() >= 3)
